@@ -352,10 +352,14 @@ def random_node(typ, rnd, depth=0, max_items=6):
             key, kind = rnd.choice(bk)
             if kind in ("child", "keyvalue", "projection", "pattern") and key in present:
                 continue
+            if kind == "points" and key in present and typ != "feature":
+                continue
             if key == "include":
                 continue
             ctyp = PLURAL.get(key, key)
             if kind in ("children", "child") and ctyp not in SC.object_types():
+                continue
+            if kind == "children" and key in present and SC.expanded(typ)["properties"][key].get("maxItems") == 1:
                 continue
             n.add(key, kind, sample_payload(typ, key, kind, rnd, depth))
             present.add(key)
